@@ -537,8 +537,6 @@ def subterms(t, data_only=False):
                 stack.append(it)
                 if not data_only:
                     stack.extend(ifs)
-                else:
-                    stack.extend(ifs)
         elif k == "var":
             if len(x) > 2:
                 stack.append(x[2])
